@@ -38,15 +38,19 @@ type finfo struct {
 	paramKinds  []string
 	results     []string
 	extraMut    int // further extra results (package variables, slice parameters written to)
+	mutParams   []int // indices of the slice parameters written to (returned, in this order, after the package variables)
+	nPkgVars    int
 }
 
 var translatedFns = map[string]*finfo{}
+var coqNames = map[string]string{}
 
 type tctx struct {
 	p        *pkg
 	name     string
 	results  []string          // kinds of the results
 	kinds    map[string]string // variable -> kind: int, bytes, bool, err
+	width    map[string]int    // integer variable -> width of its narrow unsigned type (absent / 0: not narrow)
 	mutated  []string          // slice parameters written to and package variables updated: returned as extra results
 	pre      []preEntry        // bindings hoisted out of the expression being translated (atomic updates, calls)
 	recvType string            // the struct type of the receiver, when its fields are the function's state
@@ -54,6 +58,88 @@ type tctx struct {
 	inLoop   bool
 	loopVars []string
 	recv     string
+}
+
+// widthOfType: the width of a narrow unsigned integer type (arithmetic in it wraps), 0 for int, int64, uint64 and the
+// signed types (their overflow is not modelled: the translated functions compute lengths and positions)
+func widthOfType(e ast.Expr) int {
+	if id, ok := e.(*ast.Ident); ok {
+		switch id.Name {
+		case "byte", "uint8", "Type":
+			return 8
+		case "uint16":
+			return 16
+		case "uint32":
+			return 32
+		}
+	}
+	return 0
+}
+
+// widthOf infers the width of the type of an integer expression: 0 = not narrow (or an untyped constant)
+func (c *tctx) widthOf(e ast.Expr) int {
+	switch e := e.(type) {
+	case *ast.ParenExpr:
+		return c.widthOf(e.X)
+	case *ast.Ident:
+		return c.width[e.Name]
+	case *ast.SelectorExpr:
+		if id, ok := e.X.(*ast.Ident); ok && id.Name == c.recv && c.recv != "" {
+			return c.width[c.recv+"_"+e.Sel.Name]
+		}
+	case *ast.IndexExpr:
+		return 8
+	case *ast.UnaryExpr:
+		return c.widthOf(e.X)
+	case *ast.BinaryExpr:
+		switch e.Op {
+		case token.SHL, token.SHR:
+			return c.widthOf(e.X)
+		case token.ADD, token.SUB, token.MUL, token.QUO, token.REM, token.AND, token.OR, token.XOR, token.AND_NOT:
+			if w := c.widthOf(e.X); w != 0 {
+				return w
+			}
+			return c.widthOf(e.Y)
+		}
+	case *ast.CallExpr:
+		if w := widthOfType(e.Fun); w != 0 {
+			return w
+		}
+		switch src(e.Fun) {
+		case "binary.BigEndian.Uint16":
+			return 16
+		}
+		if se, ok := e.Fun.(*ast.SelectorExpr); ok {
+			// a translated method / function: the width of its (single) result type
+			var fd *ast.FuncDecl
+			if mt, mn, ok := c.recvCall(e.Fun); ok {
+				_, fd = c.p.findMethod(mt, mn)
+			} else if _, mfd := c.p.findMethod("Type", se.Sel.Name); mfd != nil {
+				fd = mfd
+			}
+			if fd != nil && fd.Type.Results != nil && len(fd.Type.Results.List) == 1 {
+				return widthOfType(fd.Type.Results.List[0].Type)
+			}
+		}
+		if id, ok := e.Fun.(*ast.Ident); ok {
+			if _, fd := c.p.findMethod("", id.Name); fd != nil && fd.Type.Results != nil && len(fd.Type.Results.List) == 1 {
+				return widthOfType(fd.Type.Results.List[0].Type)
+			}
+		}
+	}
+	return 0
+}
+
+func wrapWidth(t string, w int) string {
+	switch w {
+	case 8:
+		return "(" + t + " mod 256)"
+	case 16:
+		return "(" + t + " mod 65536)"
+	case 32:
+		return "(" + t + " mod 4294967296)"
+	}
+	return t
 }
 
 func (c *tctx) bad(n ast.Node, what string) {
@@ -70,6 +156,8 @@ func kindOfType(e ast.Expr) string {
 			return "bool"
 		case "error":
 			return "err"
+		case "string":
+			return "str" // strings are only built for messages: their values are not represented
 		}
 	case *ast.ArrayType:
 		if id, ok := t.Elt.(*ast.Ident); ok && t.Len == nil && (id.Name == "byte" || id.Name == "uint8") {
@@ -79,12 +167,26 @@ func kindOfType(e ast.Expr) string {
 	return ""
 }
 
+// errAsCode: error values are integer codes (0 = nil) instead of booleans: used for the byte ring, whose callers
+// distinguish the errors (and the sequential reading of which adds the outcome "blocks", seq.go)
+var errAsCode bool
+
+var errCodes = map[string]int{"io.EOF": 1, "bufio.ErrBufferFull": 2, "ErrBufferInsufficientData": 3, "bufio.ErrNegativeCount": 4, errBlockedName: 5}
+
+const errOther = 9
+
 func coqType(k string) string {
 	switch k {
 	case "int":
 		return "Z"
 	case "bytes":
 		return "list Z"
+	case "err":
+		if errAsCode {
+			return "Z"
+		}
+	case "str":
+		return "unit"
 	}
 	return "bool"
 }
@@ -95,6 +197,12 @@ func zero(k string) string {
 		return "0"
 	case "bytes":
 		return "[]"
+	case "err":
+		if errAsCode {
+			return "0"
+		}
+	case "str":
+		return "tt"
 	}
 	return "false"
 }
@@ -137,6 +245,9 @@ func (c *tctx) expr(e ast.Expr, want string) (string, []string, string) {
 			}
 			return fmt.Sprintf("(%d)", v), nil, "int"
 		case token.STRING:
+			if want == "str" {
+				return "tt", nil, "str"
+			}
 			s, _ := strconv.Unquote(e.Value)
 			return byteList(s), nil, "bytes"
 		}
@@ -153,6 +264,9 @@ func (c *tctx) expr(e ast.Expr, want string) (string, []string, string) {
 		if k, ok := c.kinds[e.Name]; ok {
 			return e.Name, nil, k
 		}
+		if code, ok := errCodes[e.Name]; ok && errAsCode {
+			return fmt.Sprintf("(%d)", code), nil, "err"
+		}
 		if v, ok := c.p.consts[e.Name]; ok {
 			return fmt.Sprintf("(%d)", v), nil, "int"
 		}
@@ -161,6 +275,9 @@ func (c *tctx) expr(e ast.Expr, want string) (string, []string, string) {
 		}
 	case *ast.SelectorExpr:
 		if id, ok := e.X.(*ast.Ident); ok {
+			if code, ok := errCodes[id.Name+"."+e.Sel.Name]; ok && errAsCode {
+				return fmt.Sprintf("(%d)", code), nil, "err"
+			}
 			if id.Name == c.recv && c.recv != "" {
 				n := c.recv + "_" + e.Sel.Name
 				if k, ok := c.kinds[n]; ok {
@@ -210,8 +327,8 @@ func (c *tctx) expr(e ast.Expr, want string) (string, []string, string) {
 	case *ast.CallExpr:
 		// a method of the same receiver, a method of an integer-kind value, a function of the package
 		if se, ok := e.Fun.(*ast.SelectorExpr); ok {
-			if id, ok := se.X.(*ast.Ident); ok && c.recv != "" && id.Name == c.recv && c.recvType != "" {
-				info := ensureTranslated(c.p, c.recvType, se.Sel.Name)
+			if mt, mn, ok := c.recvCall(e.Fun); ok {
+				info := ensureTranslated(c.p, mt, mn)
 				if info == nil {
 					c.bad(e, "call of a method that is not translated")
 				}
@@ -283,7 +400,70 @@ func (c *tctx) expr(e ast.Expr, want string) (string, []string, string) {
 					g = append(g, ga...)
 				}
 			}
+			if errAsCode {
+				return fmt.Sprintf("(%d)", errOther), g, "err"
+			}
 			return "true", g, "err"
+		case "error":
+			return c.expr(e.Args[0], "err")
+		case "binary.PutUvarint":
+			// binary.PutUvarint(dst[lo:], v) as a value: the write is hoisted in front of the statement, the value is the count
+			if len(e.Args) == 2 {
+				dst, lo := e.Args[0], "0"
+				var g []string
+				if se, ok := dst.(*ast.SliceExpr); ok && se.High == nil && !se.Slice3 {
+					dst = se.X
+					if se.Low != nil {
+						lo, g, _ = c.expr(se.Low, "int")
+					}
+				}
+				dn, _, dk := c.expr(dst, "bytes")
+				if _, isVar := c.kinds[dn]; isVar && dk == "bytes" {
+					v, g2, _ := c.expr(e.Args[1], "int")
+					g = append(append(g, g2...), fmt.Sprintf("(0 <=? %s)", lo), fmt.Sprintf("(%s <=? go_len %s)", lo, dn),
+						fmt.Sprintf("(go_uvarint_len %s <=? go_len %s - %s)", v, dn, lo)) // PutUvarint panics on a short buffer
+					c.pre = append(c.pre, preEntry{prefix: fmt.Sprintf("(if %s then let %s := go_put_uvarint %s %s %s in ", conj(g), dn, dn, lo, v), suffix: " else None)", rebinds: []string{dn}})
+					return fmt.Sprintf("(go_uvarint_len %s)", v), nil, "int"
+				}
+			}
+		case "copy":
+			// copy(dst[lo:hi], src) as a value: the copy is hoisted in front of the statement, the value is the count
+			if len(e.Args) == 2 {
+				dst, lo, hi := e.Args[0], "0", ""
+				var g []string
+				if se, ok := dst.(*ast.SliceExpr); ok && !se.Slice3 {
+					dst = se.X
+					if se.Low != nil {
+						lo, g, _ = c.expr(se.Low, "int")
+					}
+					if se.High != nil {
+						var g1 []string
+						hi, g1, _ = c.expr(se.High, "int")
+						g = append(g, g1...)
+					}
+				}
+				dn, _, dk := c.expr(dst, "bytes")
+				if _, isVar := c.kinds[dn]; isVar && dk == "bytes" {
+					sv, g2, _ := c.expr(e.Args[1], "bytes")
+					if hi == "" {
+						hi = "(go_len " + dn + ")"
+					}
+					g = append(append(g, g2...), fmt.Sprintf("(0 <=? %s)", lo), fmt.Sprintf("(%s <=? %s)", lo, hi), fmt.Sprintf("(%s <=? go_len %s)", hi, dn))
+					v := fmt.Sprintf("_cn%d", c.fresh())
+					c.pre = append(c.pre, preEntry{prefix: fmt.Sprintf("(if %s then let %s := go_copy_to_n %s %s %s %s in let %s := go_copy_to %s %s %s %s in ", conj(g), v, dn, lo, hi, sv, dn, dn, lo, hi, sv),
+						suffix: " else None)", rebinds: []string{dn}})
+					return v, nil, "int"
+				}
+			}
+		case "append":
+			// append(a, b...)
+			if len(e.Args) == 2 && e.Ellipsis.IsValid() {
+				a, g1, k1 := c.expr(e.Args[0], "bytes")
+				b, g2, k2 := c.expr(e.Args[1], "bytes")
+				if k1 == "bytes" && k2 == "bytes" {
+					return "(" + a + " ++ " + b + ")", append(g1, g2...), "bytes"
+				}
+			}
 		case "bytes.IndexByte":
 			b, g1, _ := c.expr(e.Args[0], "bytes")
 			x, g2, _ := c.expr(e.Args[1], "int")
@@ -374,7 +554,11 @@ func (c *tctx) expr(e ast.Expr, want string) (string, []string, string) {
 		if ka == "int" {
 			ops := map[token.Token]string{token.ADD: "+", token.SUB: "-", token.MUL: "*"}
 			if o, ok := ops[e.Op]; ok {
-				return "(" + a + " " + o + " " + b + ")", g, "int"
+				// arithmetic in a narrow unsigned type wraps
+				return wrapWidth("("+a+" "+o+" "+b+")", c.widthOf(e)), g, "int"
+			}
+			if e.Op == token.SHL {
+				return wrapWidth("(Z.shiftl "+a+" "+b+")", c.widthOf(e)), g, "int"
 			}
 			fns := map[token.Token]string{token.QUO: "Z.quot", token.REM: "Z.rem", token.SHL: "Z.shiftl", token.SHR: "Z.shiftr",
 				token.AND: "Z.land", token.OR: "Z.lor", token.XOR: "Z.lxor"}
@@ -386,6 +570,14 @@ func (c *tctx) expr(e ast.Expr, want string) (string, []string, string) {
 				return "(" + a + " " + o + " " + b + ")", g, "bool"
 			}
 			if e.Op == token.NEQ {
+				return "(negb (" + a + " =? " + b + "))", g, "bool"
+			}
+		}
+		if ka == "err" && errAsCode {
+			switch e.Op {
+			case token.EQL:
+				return "(" + a + " =? " + b + ")", g, "bool"
+			case token.NEQ:
 				return "(negb (" + a + " =? " + b + "))", g, "bool"
 			}
 		}
@@ -447,16 +639,29 @@ func (p *pkg) fieldUse(recvType string, fd *ast.FuncDecl, seen map[string]bool) 
 	}
 	rv := fd.Recv.List[0].Names[0].Name
 	calls := map[*ast.SelectorExpr]bool{}
+	isEmbedded := map[string]bool{}
+	for _, e := range p.embedded(recvType) {
+		isEmbedded[e] = true
+	}
 	ast.Inspect(fd.Body, func(n ast.Node) bool {
 		if ce, ok := n.(*ast.CallExpr); ok {
 			if se, ok := ce.Fun.(*ast.SelectorExpr); ok {
+				mt := ""
 				if id, ok := se.X.(*ast.Ident); ok && id.Name == rv {
 					calls[se] = true
-					key := recvType + "." + se.Sel.Name
+					mt = p.resolveMethod(recvType, se.Sel.Name)
+				} else if inner, ok := se.X.(*ast.SelectorExpr); ok {
+					if id, ok := inner.X.(*ast.Ident); ok && id.Name == rv && isEmbedded[inner.Sel.Name] {
+						calls[se], calls[inner] = true, true
+						mt = p.resolveMethod(inner.Sel.Name, se.Sel.Name)
+					}
+				}
+				if mt != "" {
+					key := mt + "." + se.Sel.Name
 					if !seen[key] {
 						seen[key] = true
-						if _, mfd := p.findMethod(recvType, se.Sel.Name); mfd != nil {
-							r2, w2 := p.fieldUse(recvType, mfd, seen)
+						if _, mfd := p.findMethod(mt, se.Sel.Name); mfd != nil {
+							r2, w2 := p.fieldUse(mt, mfd, seen)
 							for f := range r2 {
 								reads[f] = true
 							}
@@ -502,7 +707,245 @@ func (p *pkg) fieldUse(recvType string, fd *ast.FuncDecl, seen map[string]bool) 
 		}
 		return true
 	})
+	for nm := range p.writtenNames(fd) {
+		if strings.HasPrefix(nm, rv+".") {
+			writes[nm[len(rv)+1:]] = true
+			reads[nm[len(rv)+1:]] = true
+		}
+	}
 	return
+}
+
+// aliasCheck: value semantics is only faithful when no slice that is written to is aliased by another variable of the
+// function (x := y[a:b] followed by a write to x or y would have to show in the other): such functions are outside the
+// fragment
+func (p *pkg) aliasCheck(name string, fd *ast.FuncDecl) {
+	nm := func(e ast.Expr) string {
+		for {
+			switch x := e.(type) {
+			case *ast.ParenExpr:
+				e = x.X
+				continue
+			case *ast.SliceExpr:
+				e = x.X
+				continue
+			}
+			break
+		}
+		if id, ok := e.(*ast.Ident); ok {
+			return id.Name
+		}
+		if se, ok := e.(*ast.SelectorExpr); ok {
+			if id, ok := se.X.(*ast.Ident); ok {
+				return id.Name + "." + se.Sel.Name
+			}
+		}
+		return ""
+	}
+	type pair struct{ a, b string }
+	var pairs []pair
+	ast.Inspect(fd.Body, func(n ast.Node) bool {
+		if as, ok := n.(*ast.AssignStmt); ok && len(as.Lhs) == len(as.Rhs) {
+			for i := range as.Lhs {
+				if _, isSlice := as.Rhs[i].(*ast.SliceExpr); !isSlice {
+					if _, isId := as.Rhs[i].(*ast.Ident); !isId {
+						if _, isSel := as.Rhs[i].(*ast.SelectorExpr); !isSel {
+							continue
+						}
+					}
+				}
+				a, b := nm(as.Lhs[i]), nm(as.Rhs[i])
+				if a != "" && b != "" && a != b && a != "_" {
+					pairs = append(pairs, pair{a, b})
+				}
+			}
+		}
+		return true
+	})
+	written := p.writtenNames(fd)
+	for _, pr := range pairs {
+		if written[pr.a] || written[pr.b] {
+			fail("translator: %s: %s and %s may share memory and one of them is written to: outside the fragment (value semantics)", name, pr.a, pr.b)
+		}
+	}
+}
+
+// writtenNames: the variables (and, as "recv.f", the receiver fields) whose elements a function writes: by element
+// assignment, as the destination of copy / PutUint16 / PutUvarint, or by passing them to a function of the package
+// that writes to the corresponding parameter
+func (p *pkg) writtenNames(fd *ast.FuncDecl) map[string]bool {
+	return p.writtenNamesRec(fd, map[*ast.FuncDecl]bool{})
+}
+
+// methodsNamed returns the methods (of any receiver type) of the package with the given name
+func (p *pkg) methodsNamed(name string) []*ast.FuncDecl {
+	var res []*ast.FuncDecl
+	var files []string
+	for f := range p.files {
+		files = append(files, f)
+	}
+	sort.Strings(files)
+	for _, f := range files {
+		for _, d := range p.files[f].Decls {
+			if fd, ok := d.(*ast.FuncDecl); ok && fd.Recv != nil && fd.Name.Name == name && fd.Body != nil {
+				res = append(res, fd)
+			}
+		}
+	}
+	return res
+}
+
+func (p *pkg) writtenNamesRec(fd *ast.FuncDecl, seen map[*ast.FuncDecl]bool) map[string]bool {
+	written := map[string]bool{}
+	if seen[fd] {
+		return written
+	}
+	seen[fd] = true
+	name := func(a ast.Expr) string {
+		if se, ok := a.(*ast.SliceExpr); ok {
+			a = se.X
+		}
+		if id, ok := a.(*ast.Ident); ok {
+			return id.Name
+		}
+		if se, ok := a.(*ast.SelectorExpr); ok {
+			if id, ok := se.X.(*ast.Ident); ok {
+				return id.Name + "." + se.Sel.Name
+			}
+		}
+		return ""
+	}
+	ast.Inspect(fd.Body, func(n ast.Node) bool {
+		switch st := n.(type) {
+		case *ast.AssignStmt:
+			for _, l := range st.Lhs {
+				if ix, ok := l.(*ast.IndexExpr); ok {
+					if nm := name(ix.X); nm != "" {
+						written[nm] = true
+					}
+				}
+			}
+		case *ast.CallExpr:
+			if id, ok := st.Fun.(*ast.Ident); ok {
+				switch id.Name {
+				case "copy":
+					if nm := name(st.Args[0]); nm != "" {
+						written[nm] = true
+					}
+				default:
+					if _, cfd := p.findMethod("", id.Name); cfd != nil && cfd != fd {
+						w2 := p.writtenNamesRec(cfd, seen)
+						i := 0
+						for _, f := range cfd.Type.Params.List {
+							for _, pn := range f.Names {
+								if w2[pn.Name] && i < len(st.Args) {
+									if nm := name(st.Args[i]); nm != "" {
+										written[nm] = true
+									}
+								}
+								i++
+							}
+						}
+					}
+				}
+			} else if f := src(st.Fun); f == "binary.BigEndian.PutUint16" || f == "binary.PutUvarint" {
+				if nm := name(st.Args[0]); nm != "" {
+					written[nm] = true
+				}
+			} else if se, ok := st.Fun.(*ast.SelectorExpr); ok && !isPkgName(se.X) {
+				// X.m(args): whatever method of the package is called m - if one of them writes to the parameter in that
+				// position, the argument counts as written (the static type of X is not tracked)
+				for _, cfd := range p.methodsNamed(se.Sel.Name) {
+					if cfd == fd {
+						continue
+					}
+					w2 := p.writtenNamesRec(cfd, seen)
+					i := 0
+					for _, f := range cfd.Type.Params.List {
+						for _, pn := range f.Names {
+							if w2[pn.Name] && i < len(st.Args) {
+								if nm := name(st.Args[i]); nm != "" {
+									written[nm] = true
+								}
+							}
+							i++
+						}
+					}
+				}
+			}
+		}
+		return true
+	})
+	return written
+}
+
+// embedded returns the struct types embedded in a struct type of the package
+func (p *pkg) embedded(name string) []string {
+	var res []string
+	for _, af := range p.files {
+		for _, d := range af.Decls {
+			gd, ok := d.(*ast.GenDecl)
+			if !ok || gd.Tok != token.TYPE {
+				continue
+			}
+			for _, sp := range gd.Specs {
+				ts := sp.(*ast.TypeSpec)
+				st, ok := ts.Type.(*ast.StructType)
+				if !ok || ts.Name.Name != name {
+					continue
+				}
+				for _, f := range st.Fields.List {
+					if len(f.Names) == 0 {
+						if id, ok := f.Type.(*ast.Ident); ok && p.isStruct(id.Name) {
+							res = append(res, id.Name)
+						}
+					}
+				}
+			}
+		}
+	}
+	return res
+}
+
+// resolveMethod finds the type that declares method name for a receiver of type recvType: the type itself, or a struct
+// it embeds (to any depth)
+func (p *pkg) resolveMethod(recvType, name string) string {
+	if _, fd := p.findMethod(recvType, name); fd != nil {
+		return recvType
+	}
+	for _, e := range p.embedded(recvType) {
+		if t := p.resolveMethod(e, name); t != "" {
+			return t
+		}
+	}
+	return ""
+}
+
+// recvCall recognises recv.m(..) and recv.E.m(..) (E an embedded struct of the receiver's type) and returns the type the
+// method is to be looked up in
+func (c *tctx) recvCall(fun ast.Expr) (string, string, bool) {
+	se, ok := fun.(*ast.SelectorExpr)
+	if !ok || c.recv == "" || c.recvType == "" {
+		return "", "", false
+	}
+	if id, ok := se.X.(*ast.Ident); ok && id.Name == c.recv {
+		if t := c.p.resolveMethod(c.recvType, se.Sel.Name); t != "" {
+			return t, se.Sel.Name, true
+		}
+		return "", "", false
+	}
+	if inner, ok := se.X.(*ast.SelectorExpr); ok {
+		if id, ok := inner.X.(*ast.Ident); ok && id.Name == c.recv {
+			for _, e := range c.p.embedded(c.recvType) {
+				if e == inner.Sel.Name {
+					if t := c.p.resolveMethod(e, se.Sel.Name); t != "" {
+						return t, se.Sel.Name, true
+					}
+				}
+			}
+		}
+	}
+	return "", "", false
 }
 
 // findMethod looks a method of a type up in all files of the package
@@ -554,12 +997,9 @@ func (c *tctx) call(e *ast.CallExpr, info *finfo, recvArg string, hasRecvArg boo
 	if len(e.Args) != len(info.paramKinds) {
 		c.bad(e, "call (argument count)")
 	}
-	for i, a := range e.Args {
-		t, g, _ := c.expr(a, info.paramKinds[i])
-		args, gs = append(args, t), append(gs, g...)
-	}
-	if len(gs) > 0 {
-		c.bad(e, "call with an argument that may panic")
+	isMut := map[int]bool{}
+	for _, i := range info.mutParams {
+		isMut[i] = true
 	}
 	n := c.fresh()
 	var res, pat, rebinds []string
@@ -570,16 +1010,61 @@ func (c *tctx) call(e *ast.CallExpr, info *finfo, recvArg string, hasRecvArg boo
 	for _, f := range info.mutFields {
 		pat, rebinds = append(pat, c.recv+"_"+f), append(rebinds, c.recv+"_"+f)
 	}
-	for i := 0; i < info.extraMut; i++ {
-		c.bad(e, "call of a function that updates package variables or slice arguments")
+	if info.nPkgVars > 0 {
+		c.bad(e, "call of a function that updates package variables")
 	}
+	after := ""
+	var mutPat []string
+	for i, a := range e.Args {
+		if isMut[i] {
+			// a slice argument the callee writes to: a variable (re-bound to what the callee made of it), or v[lo:] (the
+			// callee's version of the sub-slice is copied back into v)
+			if se, ok := a.(*ast.SliceExpr); ok && se.High == nil && !se.Slice3 {
+				vn, _, vk := c.expr(se.X, "bytes")
+				if _, isVar := c.kinds[vn]; !isVar || vk != "bytes" {
+					c.bad(e, "call that writes to a slice argument that is not a variable")
+				}
+				lo := "0"
+				if se.Low != nil {
+					var g []string
+					lo, g, _ = c.expr(se.Low, "int")
+					gs = append(gs, g...)
+				}
+				gs = append(gs, fmt.Sprintf("(0 <=? %s)", lo), fmt.Sprintf("(%s <=? go_len %s)", lo, vn))
+				args = append(args, fmt.Sprintf("(go_sub %s %s (go_len %s))", vn, lo, vn))
+				mv := fmt.Sprintf("_m%d_%d", n, i)
+				mutPat = append(mutPat, mv)
+				after += fmt.Sprintf("let %s := go_copy %s %s %s in ", vn, vn, lo, mv)
+				rebinds = append(rebinds, vn)
+				continue
+			}
+			t, g, _ := c.expr(a, info.paramKinds[i])
+			if _, isVar := c.kinds[t]; !isVar || len(g) > 0 {
+				c.bad(e, "call that writes to a slice argument that is not a variable")
+			}
+			args = append(args, t)
+			mutPat = append(mutPat, t)
+			rebinds = append(rebinds, t)
+			continue
+		}
+		t, g, _ := c.expr(a, info.paramKinds[i])
+		args, gs = append(args, t), append(gs, g...)
+	}
+	pat = append(pat, mutPat...)
 	p := "_"
 	if len(pat) == 1 {
 		p = pat[0]
 	} else if len(pat) > 1 {
 		p = "(" + strings.Join(pat, ", ") + ")"
 	}
-	c.pre = append(c.pre, preEntry{prefix: fmt.Sprintf("match %s %s with None => None | Some %s => ", info.coqName, strings.Join(args, " "), p), suffix: " end", rebinds: rebinds})
+	prefix := fmt.Sprintf("match %s %s with None => None | Some %s => %s", info.coqName, strings.Join(args, " "), p, after)
+	suffix := " end"
+	if len(gs) > 0 {
+		// the arguments are evaluated before the call: a panic in them is the call's
+		prefix = "(if " + conj(gs) + " then " + prefix
+		suffix = " end else None)"
+	}
+	c.pre = append(c.pre, preEntry{prefix: prefix, suffix: suffix, rebinds: rebinds})
 	return res
 }
 
@@ -624,7 +1109,7 @@ func (c *tctx) ret(vals []string) string {
 }
 
 // assigned collects the variables of the enclosing scopes a statement list assigns to
-func assigned(list []ast.Stmt, declared map[string]bool, out map[string]bool) {
+func assigned(recv string, list []ast.Stmt, declared map[string]bool, out map[string]bool) {
 	local := map[string]bool{}
 	for k := range declared {
 		local[k] = true
@@ -641,12 +1126,31 @@ func assigned(list []ast.Stmt, declared map[string]bool, out map[string]bool) {
 							out[id.Name] = true
 						}
 					}
+					if se, ok := l.(*ast.SelectorExpr); ok && recv != "" {
+						if id, ok := se.X.(*ast.Ident); ok && id.Name == recv {
+							out[recv+"_"+se.Sel.Name] = true
+						}
+					}
 				}
 			case *ast.IncDecStmt:
 				if id, ok := st.X.(*ast.Ident); ok && !local[id.Name] {
 					out[id.Name] = true
 				}
+				if se, ok := st.X.(*ast.SelectorExpr); ok && recv != "" {
+					if id, ok := se.X.(*ast.Ident); ok && id.Name == recv {
+						out[recv+"_"+se.Sel.Name] = true
+					}
+				}
 			case *ast.CallExpr:
+				if id, ok := st.Fun.(*ast.Ident); ok && id.Name == "copy" {
+					a := st.Args[0]
+					if se, ok := a.(*ast.SliceExpr); ok {
+						a = se.X
+					}
+					if id, ok := a.(*ast.Ident); ok && !local[id.Name] {
+						out[id.Name] = true
+					}
+				}
 				if src(st.Fun) == "atomic.AddUint64" {
 					if ue, ok := st.Args[0].(*ast.UnaryExpr); ok {
 						if id, ok := ue.X.(*ast.Ident); ok && !local[id.Name] {
@@ -667,6 +1171,23 @@ func (c *tctx) stmts(list []ast.Stmt, k func() string) string {
 	rest := func() string { return c.stmts(list[1:], k) }
 	switch s := list[0].(type) {
 	case *ast.ReturnStmt:
+		if len(s.Results) == 1 && len(c.results) > 1 {
+			// return f(args): the results of a call with several results
+			if ce, ok := s.Results[0].(*ast.CallExpr); ok {
+				var info *finfo
+				if mt, mn, ok := c.recvCall(ce.Fun); ok {
+					info = ensureTranslated(c.p, mt, mn)
+				} else if id, ok := ce.Fun.(*ast.Ident); ok {
+					if _, ffd := c.p.findMethod("", id.Name); ffd != nil {
+						info = ensureTranslated(c.p, "", id.Name)
+					}
+				}
+				if info != nil && len(info.results) == len(c.results) {
+					res := c.call(ce, info, "", false)
+					return c.withPre(c.ret(res))
+				}
+			}
+		}
 		if len(s.Results) != len(c.results) {
 			c.bad(s, "return")
 		}
@@ -713,6 +1234,11 @@ func (c *tctx) stmts(list []ast.Stmt, k func() string) string {
 					if i < len(vs.Values) {
 						v, g, k = c.expr(vs.Values[i], k)
 					}
+					if vs.Type != nil {
+						c.width[n.Name] = widthOfType(vs.Type)
+					} else if i < len(vs.Values) {
+						c.width[n.Name] = c.widthOf(vs.Values[i])
+					}
 					if k == "" || len(g) > 0 {
 						c.bad(s, "declaration")
 					}
@@ -725,14 +1251,36 @@ func (c *tctx) stmts(list []ast.Stmt, k func() string) string {
 		}
 	case *ast.IncDecStmt:
 		id, ok := s.X.(*ast.Ident)
+		if se, isSel := s.X.(*ast.SelectorExpr); isSel && !ok {
+			// a field of the receiver
+			if rid, isId := se.X.(*ast.Ident); isId && c.recv != "" && rid.Name == c.recv {
+				id, ok = &ast.Ident{Name: c.recv + "_" + se.Sel.Name, NamePos: se.Pos()}, true
+			}
+		}
 		if ok && c.kinds[id.Name] == "int" {
 			op := "+"
 			if s.Tok == token.DEC {
 				op = "-"
 			}
-			return fmt.Sprintf("(let %s := (%s %s 1) in %s)", id.Name, id.Name, op, rest())
+			return fmt.Sprintf("(let %s := %s in %s)", id.Name, wrapWidth(fmt.Sprintf("(%s %s 1)", id.Name, op), c.width[id.Name]), rest())
 		}
 	case *ast.AssignStmt:
+		// dst[i], dst[j] = a, b with literal right-hand sides: one element assignment after the other
+		if len(s.Lhs) > 1 && len(s.Lhs) == len(s.Rhs) && s.Tok == token.ASSIGN {
+			all := true
+			for i := range s.Lhs {
+				_, isIx := s.Lhs[i].(*ast.IndexExpr)
+				_, isLit := s.Rhs[i].(*ast.BasicLit)
+				all = all && isIx && isLit
+			}
+			if all {
+				var seq []ast.Stmt
+				for i := range s.Lhs {
+					seq = append(seq, &ast.AssignStmt{Lhs: []ast.Expr{s.Lhs[i]}, TokPos: s.TokPos, Tok: token.ASSIGN, Rhs: []ast.Expr{s.Rhs[i]}})
+				}
+				return c.stmts(append(seq, list[1:]...), k)
+			}
+		}
 		// element assignment dst[i] = v
 		if len(s.Lhs) == 1 && s.Tok == token.ASSIGN {
 			if ix, ok := s.Lhs[0].(*ast.IndexExpr); ok {
@@ -785,6 +1333,81 @@ func (c *tctx) stmts(list []ast.Stmt, k func() string) string {
 				}
 			}
 		}
+		// n := copy(dst[lo:], src) (also = and +=): writes into dst, yields the number of bytes copied
+		if len(s.Lhs) == 1 && len(s.Rhs) == 1 {
+			if ce, ok := s.Rhs[0].(*ast.CallExpr); ok {
+				if fid, ok := ce.Fun.(*ast.Ident); ok && fid.Name == "copy" && len(ce.Args) == 2 {
+					lhs, okL := s.Lhs[0].(*ast.Ident)
+					dst, lo := ce.Args[0], "0"
+					var g []string
+					if se, ok := dst.(*ast.SliceExpr); ok && se.High == nil && !se.Slice3 {
+						dst = se.X
+						if se.Low != nil {
+							lo, g, _ = c.expr(se.Low, "int")
+						}
+					}
+					dn, _, dk := c.expr(dst, "bytes")
+					if _, isVar := c.kinds[dn]; isVar && dk == "bytes" && okL {
+						sv, g2, _ := c.expr(ce.Args[1], "bytes")
+						g = append(append(g, g2...), fmt.Sprintf("(0 <=? %s)", lo), fmt.Sprintf("(%s <=? go_len %s)", lo, dn))
+						val := "_cn"
+						switch s.Tok {
+						case token.DEFINE, token.ASSIGN:
+						case token.ADD_ASSIGN:
+							val = fmt.Sprintf("(%s + _cn)", lhs.Name)
+						default:
+							c.bad(s, "assignment operator")
+						}
+						c.kinds[lhs.Name] = "int"
+						return c.withPre(guarded(g, fmt.Sprintf("(let _cn := go_copy_n %s %s %s in let %s := go_copy %s %s %s in let %s := %s in %s)",
+							dn, lo, sv, dn, dn, lo, sv, lhs.Name, val, rest())))
+					}
+				}
+			}
+		}
+		// a, b, c := f(args) / recv.m(args): a call with several results
+		if len(s.Lhs) > 1 && len(s.Rhs) == 1 && (s.Tok == token.DEFINE || s.Tok == token.ASSIGN) {
+			if ce, ok := s.Rhs[0].(*ast.CallExpr); ok {
+				var info *finfo
+				if _, ok := ce.Fun.(*ast.SelectorExpr); ok {
+					if mt, mn, ok := c.recvCall(ce.Fun); ok {
+						info = ensureTranslated(c.p, mt, mn)
+					}
+				} else if id, ok := ce.Fun.(*ast.Ident); ok {
+					if _, isVar := c.kinds[id.Name]; !isVar {
+						if _, ffd := c.p.findMethod("", id.Name); ffd != nil {
+							info = ensureTranslated(c.p, "", id.Name)
+						}
+					}
+				}
+				if info != nil && len(info.results) == len(s.Lhs) {
+					res := c.call(ce, info, "", false)
+					var names, vals []string
+					for i, l := range s.Lhs {
+						id, ok := l.(*ast.Ident)
+						if !ok {
+							c.bad(s, "assignment target")
+						}
+						if id.Name == "_" {
+							continue
+						}
+						if want := c.kinds[id.Name]; want != "" && want != info.results[i] {
+							c.bad(s, "assignment changes the kind of "+id.Name)
+						}
+						c.kinds[id.Name] = info.results[i]
+						names, vals = append(names, id.Name), append(vals, res[i])
+					}
+					pre := c.pre
+					c.pre = nil
+					body := rest()
+					c.pre = pre
+					if len(names) == 0 {
+						return c.withPre(body)
+					}
+					return c.withPre(fmt.Sprintf("(let %s := %s in %s)", c.pattern(names), c.tuple(vals), body))
+				}
+			}
+		}
 		if len(s.Lhs) != len(s.Rhs) {
 			c.bad(s, "assignment")
 		}
@@ -824,6 +1447,9 @@ func (c *tctx) stmts(list []ast.Stmt, k func() string) string {
 			if want != "" && want != k {
 				c.bad(s, "assignment changes the kind of "+id.Name)
 			}
+			if s.Tok == token.DEFINE && k == "int" {
+				c.width[id.Name] = c.widthOf(s.Rhs[i])
+			}
 			c.kinds[id.Name] = k
 			names, vals, gs = append(names, id.Name), append(vals, t), append(gs, g...)
 		}
@@ -836,20 +1462,20 @@ func (c *tctx) stmts(list []ast.Stmt, k func() string) string {
 		return wrap(guarded(gs, fmt.Sprintf("(let %s := %s in %s)", c.pattern(names), c.tuple(vals), rest())))
 	case *ast.ExprStmt:
 		if call, ok := s.X.(*ast.CallExpr); ok {
-			if se, ok := call.Fun.(*ast.SelectorExpr); ok {
-				if id, ok := se.X.(*ast.Ident); ok && c.recv != "" && id.Name == c.recv && c.recvType != "" {
-					if info := ensureTranslated(c.p, c.recvType, se.Sel.Name); info != nil {
-						c.call(call, info, "", false)
-						return c.withPre(rest())
-					}
+			if mt, mn, ok := c.recvCall(call.Fun); ok {
+				if info := ensureTranslated(c.p, mt, mn); info != nil {
+					c.call(call, info, "", false)
+					return c.withPre(rest())
 				}
 			}
 			switch src(call.Fun) {
 			case "binary.BigEndian.PutUint16":
-				if id, ok := call.Args[0].(*ast.Ident); ok && c.kinds[id.Name] == "bytes" {
-					v, g, _ := c.expr(call.Args[1], "int")
-					g = append(g, "(2 <=? go_len "+id.Name+")")
-					return guarded(g, fmt.Sprintf("(let %s := go_put16 %s %s in %s)", id.Name, id.Name, v, rest()))
+				if dn, _, dk := c.expr(call.Args[0], "bytes"); dk == "bytes" {
+					if _, isVar := c.kinds[dn]; isVar {
+						v, g, _ := c.expr(call.Args[1], "int")
+						g = append(g, "(2 <=? go_len "+dn+")")
+						return guarded(g, fmt.Sprintf("(let %s := go_put16 %s %s in %s)", dn, dn, v, rest()))
+					}
 				}
 			case "copy":
 				// copy(dst[lo:], src) / copy(dst, src)
@@ -956,11 +1582,36 @@ func (c *tctx) stmts(list []ast.Stmt, k func() string) string {
 	case *ast.ForStmt:
 		// for { body }: the body runs until it returns; the translation gives it loopFuel rounds (the lemma about the
 		// translated function shows they suffice)
-		if c.inLoop || s.Init != nil || s.Cond != nil || s.Post != nil {
+		if c.inLoop || s.Init != nil || s.Post != nil {
 			c.bad(s, "for loop")
 		}
+		if s.Cond != nil {
+			// for cond { body }: a round of the loop either runs the body (cond holds) or leaves the loop, in which case
+			// the function's result is that of the statements after the loop
+			set := map[string]bool{}
+			assigned(c.recv, s.Body.List, map[string]bool{}, set)
+			var vars []string
+			for v := range set {
+				if _, ok := c.kinds[v]; ok {
+					vars = append(vars, v)
+				}
+			}
+			sort.Strings(vars)
+			saved := c.saveKinds()
+			cond, g, _ := c.expr(s.Cond, "bool")
+			if len(c.pre) > 0 {
+				c.bad(s, "loop condition with calls")
+			}
+			c.inLoop, c.loopVars = true, vars
+			body := c.stmts(s.Body.List, c.fallOff)
+			c.inLoop, c.loopVars = false, nil
+			c.kinds = saved
+			after := rest()
+			return fmt.Sprintf("(match go_loop %d (fun %s => %s) %s with Some (inr _r) => Some _r | _ => None end)", loopFuel, c.pattern(vars),
+				guarded(g, fmt.Sprintf("(if %s then %s else match %s with Some _r => Some (inr _r) | None => None end)", cond, body, after)), c.tuple(vars))
+		}
 		set := map[string]bool{}
-		assigned(s.Body.List, map[string]bool{}, set)
+		assigned(c.recv, s.Body.List, map[string]bool{}, set)
 		var vars []string
 		for v := range set {
 			if _, ok := c.kinds[v]; ok {
@@ -992,7 +1643,7 @@ func (c *tctx) stmts(list []ast.Stmt, k func() string) string {
 			}
 		}
 		set := map[string]bool{}
-		assigned(s.Body.List, map[string]bool{iv: true, cv: true}, set)
+		assigned(c.recv, s.Body.List, map[string]bool{iv: true, cv: true}, set)
 		var vars []string
 		for v := range set {
 			if _, ok := c.kinds[v]; ok {
@@ -1040,8 +1691,26 @@ func (p *pkg) structFields(name string) map[string]string {
 					continue
 				}
 				for _, f := range st.Fields.List {
+					if len(f.Names) == 0 {
+						// an embedded struct of the package: its fields are promoted
+						if id, ok := f.Type.(*ast.Ident); ok && id.Name != name && p.isStruct(id.Name) {
+							for f2, k2 := range p.structFields(id.Name) {
+								res[f2] = k2
+							}
+						}
+					}
 					for _, n := range f.Names {
 						res[n.Name] = kindOfType(f.Type)
+						// a field of a struct type of the package (or a pointer to one): its fields, flattened as F_f
+						t := f.Type
+						if se, ok := t.(*ast.StarExpr); ok {
+							t = se.X
+						}
+						if id, ok := t.(*ast.Ident); ok && id.Name != name && p.isStruct(id.Name) {
+							for f2, k2 := range p.structFields(id.Name) {
+								res[n.Name+"_"+f2] = k2
+							}
+						}
 					}
 				}
 			}
@@ -1064,8 +1733,13 @@ func translateFn(w *strings.Builder, p *pkg, file, recv, name string) {
 		}
 		return true
 	})
-	c := &tctx{p: p, name: p.name + "." + name, kinds: map[string]string{}}
+	p.aliasCheck(p.name+"."+name, fd)
+	c := &tctx{p: p, name: p.name + "." + name, kinds: map[string]string{}, width: map[string]int{}}
 	info := &finfo{coqName: fmt.Sprintf("go_%s_%s", p.name, name)}
+	if owner, taken := coqNames[info.coqName]; (taken && owner != p.name+"."+recv+"."+name) || (recv != "" && strings.HasSuffix(recv, "Message")) {
+		info.coqName = fmt.Sprintf("go_%s_%s_%s", p.name, recv, name)
+	}
+	coqNames[info.coqName] = p.name + "." + recv + "." + name
 	intRecv := false
 	var params []string
 	addParam := func(n, k string) {
@@ -1076,6 +1750,7 @@ func translateFn(w *strings.Builder, p *pkg, file, recv, name string) {
 		c.recv = fd.Recv.List[0].Names[0].Name
 		if k := kindOfType(fd.Recv.List[0].Type); k != "" {
 			addParam(c.recv, k) // a value receiver of integer kind (Type)
+			c.width[c.recv] = widthOfType(fd.Recv.List[0].Type)
 			c.recv = ""
 			intRecv = true
 		} else {
@@ -1117,6 +1792,7 @@ func translateFn(w *strings.Builder, p *pkg, file, recv, name string) {
 		}
 		for _, n := range f.Names {
 			addParam(n.Name, k)
+			c.width[n.Name] = widthOfType(f.Type)
 			info.paramKinds = append(info.paramKinds, k)
 		}
 	}
@@ -1146,38 +1822,19 @@ func translateFn(w *strings.Builder, p *pkg, file, recv, name string) {
 		return true
 	})
 	// slice parameters written to
-	written := map[string]bool{}
-	ast.Inspect(fd.Body, func(n ast.Node) bool {
-		switch st := n.(type) {
-		case *ast.AssignStmt:
-			for _, l := range st.Lhs {
-				if ix, ok := l.(*ast.IndexExpr); ok {
-					if id, ok := ix.X.(*ast.Ident); ok {
-						written[id.Name] = true
-					}
-				}
-			}
-		case *ast.CallExpr:
-			f := src(st.Fun)
-			if f == "copy" || f == "binary.BigEndian.PutUint16" || f == "binary.PutUvarint" {
-				a := st.Args[0]
-				if se, ok := a.(*ast.SliceExpr); ok {
-					a = se.X
-				}
-				if id, ok := a.(*ast.Ident); ok {
-					written[id.Name] = true
-				}
-			}
-		}
-		return true
-	})
+	nPkg := len(c.mutated) - len(info.mutFields)
+	written := p.writtenNames(fd)
+	idx := 0
 	for _, f := range fd.Type.Params.List {
 		for _, n := range f.Names {
 			if written[n.Name] {
 				c.mutated = append(c.mutated, n.Name)
+				info.mutParams = append(info.mutParams, idx)
 			}
+			idx++
 		}
 	}
+	info.nPkgVars = nPkg
 	info.results = c.results
 	info.extraMut = len(c.mutated) - len(info.mutFields)
 	translatedFns[p.name+"."+recv+"."+name] = info
@@ -1196,7 +1853,7 @@ func translateFn(w *strings.Builder, p *pkg, file, recv, name string) {
 	pos := fset.Position(fd.Pos())
 	fmt.Fprintf(w, "(* %s/%s: func %s *)\n", p.name, file, name)
 	_ = pos
-	fmt.Fprintf(w, "Definition go_%s_%s %s : option (%s) :=\n  %s.\n\n", p.name, name, strings.Join(params, " "), rt, body)
+	fmt.Fprintf(w, "Definition %s %s : option (%s) :=\n  %s.\n#[global] Hint Unfold %s : gotrans.\n\n", info.coqName, strings.Join(params, " "), rt, body, info.coqName)
 }
 
 var transOut *strings.Builder
@@ -1220,7 +1877,7 @@ func emitTranslated(path string, msg, topics, sess, svc *pkg) bool {
 	var w strings.Builder
 	w.WriteString("(* GENERATED by /verif/tools/gentables (trans.go) from /repo's current working tree -- do not edit.\n")
 	w.WriteString("   Gallina translations of pure leaf functions of the library; the semantics of the fragment is Base/GoSem.v. *)\n")
-	w.WriteString("From Coq Require Import List ZArith Bool.\nFrom Base Require Import GoSem.\nImport ListNotations.\nOpen Scope Z_scope.\n\n")
+	w.WriteString("From Coq Require Import List ZArith Bool.\nFrom Base Require Import GoSem.\nImport ListNotations.\nOpen Scope Z_scope.\nCreate HintDb gotrans.\n\n")
 	transOut = &w
 	translate := func(w *strings.Builder, p *pkg, file, recv, name string) {
 		if _, done := translatedFns[p.name+"."+recv+"."+name]; done {
@@ -1240,6 +1897,14 @@ func emitTranslated(path string, msg, topics, sess, svc *pkg) bool {
 	translate(&w, msg, "header.go", "header", "decode")
 	translate(&w, msg, "header.go", "header", "encode")
 	translate(&w, msg, "header.go", "header", "SetRemainingLength")
+	translate(&w, msg, "header.go", "header", "PacketID")
+	translate(&w, msg, "header.go", "header", "SetPacketID")
+	for _, fn := range []string{"Decode", "Len", "Encode"} {
+		translate(&w, msg, "disconnect.go", "DisconnectMessage", fn)
+	}
+	for _, fn := range []string{"msglen", "Decode", "Len", "Encode"} {
+		translate(&w, msg, "puback.go", "PubackMessage", fn)
+	}
 	translate(&w, sess, "ackqueue.go", "Ackqueue", "index")
 	translate(&w, sess, "ackqueue.go", "Ackqueue", "full")
 	translate(&w, sess, "ackqueue.go", "Ackqueue", "empty")
@@ -1247,5 +1912,24 @@ func emitTranslated(path string, msg, topics, sess, svc *pkg) bool {
 	translate(&w, sess, "ackqueue.go", "", "roundUpPowerOfTwo64")
 	translate(&w, svc, "buffer.go", "", "powerOfTwo64")
 	translate(&w, svc, "buffer.go", "", "roundUpPowerOfTwo64")
+	// the byte ring in its sequential reading (seq.go): a fresh parse of the package, rewritten; errors are codes
+	w.WriteString("(* service/buffer.go in its sequential reading (tools/gentables/seq.go): locks, broadcasts and hook points dropped,\n")
+	w.WriteString("   atomic loads / stores plain, Cond.Wait = the call blocks.  Error codes: 0 nil, 1 io.EOF, 2 bufio.ErrBufferFull,\n")
+	w.WriteString("   3 ErrBufferInsufficientData, 4 bufio.ErrNegativeCount, 5 the call blocks, 9 any other error. *)\n\n")
+	var seq *pkg
+	section("sequential reading of service/buffer.go", func() {
+		seq = loadPkg("service")
+		seqRewrite(seq, "buffer")
+	})
+	if seq != nil {
+		errAsCode = true
+		for _, fn := range []string{"isDone", "Len", "Close", "waitForWriteSpace", "WriteWait", "WriteCommit", "ReadPeek", "ReadWait", "ReadCommit"} {
+			translate(&w, seq, "buffer.go", "buffer", fn)
+		}
+		translate(&w, seq, "buffer.go", "", "ringCopy")
+		translate(&w, seq, "buffer.go", "buffer", "Write")
+		translate(&w, seq, "buffer.go", "buffer", "Read")
+		errAsCode = false
+	}
 	return writeIfChanged(path, w.String())
 }
